@@ -86,8 +86,6 @@ def p_open_parse_abs(s, open_obj, message):
             capa['add_path'] = [Opaque('add-path entry', 'dict')]
     s.set(open_obj, 'asn', asn)
     s.set(open_obj, 'capa_dict', capa)
-    if s.is_(d.optlen, 0):
-        return None
     return ANY
 
 
@@ -105,8 +103,9 @@ def rx_requires(s, P):
 def p_negotiate_hold_time(s, P, hold_time):
     """internal helper (from the code): H := min(H, proposed); 1 and 2 are rejected; KA := H/3"""
     fsm = s.get(P, 'fsm')
-    require_inv(s, fsm)
+    require_inv(s, fsm, structural_only=True)      # called in the middle of OPEN processing
     s.c.requires(z3.And(T(hold_time) >= 0, T(hold_time) <= 65535), 'hold time is a 2-octet field')
+    s.c.requires(z3.Or([T(s.get(fsm, 'state')) == k for k in SESSION_STATES]), 'called while handling an OPEN, i.e. in a session state')
     profile_dont_cares(s, fsm)
     H = s.get(fsm, 'hold_time')
     H2 = mk_num(z3.If(T(H) < T(hold_time), T(H), T(hold_time)))
@@ -115,8 +114,8 @@ def p_negotiate_hold_time(s, P, hold_time):
         err_close(s, fsm, wire.E_OPEN, wire.OPEN_BAD_HOLD)
     s.set(fsm, 'keep_alive_time', s.it.m.binop(s.it, 'Div', H2, 3))
     for name, _ in inv_terms_names(fsm):
-        if name not in ('I4c-keepalive-interval', 'I4a-timers-running', 'I4b-no-timers-when-hold-time-zero',
-                        'NoPoison-offered-hold-time-is-configured', 'I4d-negotiated-hold-time-legal'):
+        from .session import TIMING_CLAUSES
+        if name not in TIMING_CLAUSES:
             s.post.append(('Inv/' + name, (lambda n=name: dict(CS_inv_terms(fsm))[n])))
 
 
